@@ -62,6 +62,12 @@ type byteSlice struct {
 	off, len, cap value // int64 | *Sym(Int)
 }
 
+// byteArray is a [N]byte value (value semantics: copied on load/store).
+type byteArray struct {
+	arr *byteArr
+	n   int64
+}
+
 type bytePtr struct {
 	arr *byteArr
 	idx value
@@ -129,6 +135,9 @@ func zero(t types.Type) value {
 	case *types.Pointer:
 		return (*value)(nil)
 	case *types.Array:
+		if isByteArrayType(t) {
+			return byteArray{arr: &byteArr{content: zeroBytes(t.Len())}, n: t.Len()}
+		}
 		a := make(array, t.Len())
 		for i := range a {
 			a[i] = zero(t.Elem())
@@ -186,6 +195,9 @@ func load(T types.Type, addr *value) value {
 		}
 		return a
 	case *types.Array:
+		if ba, ok := (*addr).(byteArray); ok {
+			return byteArray{arr: &byteArr{content: ba.arr.content}, n: ba.n}
+		}
 		v, ok := (*addr).(array)
 		if !ok {
 			return *addr
@@ -214,6 +226,12 @@ func store(T types.Type, addr *value, v value) {
 			store(T.Field(i).Type(), &lhs[i], rhs[i])
 		}
 	case *types.Array:
+		if lb, ok := (*addr).(byteArray); ok {
+			if rb, ok := v.(byteArray); ok {
+				lb.arr.content = rb.arr.content
+				return
+			}
+		}
 		lhs, ok1 := (*addr).(array)
 		rhs, ok2 := v.(array)
 		if !ok1 || !ok2 {
@@ -243,6 +261,8 @@ func copyVal(v value) value {
 			a[i] = copyVal(v[i])
 		}
 		return a
+	case byteArray:
+		return byteArray{arr: &byteArr{content: v.arr.content}, n: v.n}
 	}
 	return v
 }
@@ -310,6 +330,8 @@ func (p *Path) equalsV(t types.Type, x, y value) value {
 			r = mkAnd(r, p.equalsV(tE, x[i], ya[i]))
 		}
 		return r
+	case byteArray:
+		return mkStrEq(x.arr.content, y.(byteArray).arr.content)
 	case iface:
 		yi := y.(iface)
 		if !sameType(x.t, yi.t) {
@@ -598,3 +620,5 @@ type channel struct {
 	cap    int
 	closed bool
 }
+
+func zeroBytes(n int64) value { return string(make([]byte, n)) }
